@@ -71,11 +71,11 @@ let getc_i (t : int) (s : state) : caller =
   nth t s.callers
 
 (* a result is (kind, token); the harness derives the whole value from the token (vector length class
-   token mod 5: 1 2 17 0 1500 elements, the token in the LAST element) and prints kind:token only if every
+   token mod 7: 1 2 17 0 1500 9000 20000 elements, the token in the LAST element) and prints kind:token only if every
    element / field it got back is the one sent; an empty vector cannot carry the token *)
 let show_ret = function
   | RetVal (KBool, p) -> "bool:" ^ string_of_int ((int_of_z p) land 1)
-  | RetVal ((KVecBare | KVecObj) as k, p) when (int_of_z p) mod 5 = 3 -> string_of_kind k ^ ":empty"
+  | RetVal ((KVecBare | KVecObj) as k, p) when (int_of_z p) mod 7 = 3 -> string_of_kind k ^ ":empty"
   | RetVal (k, p) -> string_of_kind k ^ ":" ^ sz p
   | RetErr p -> "err:" ^ sz p
   | RetNil -> "nil"
